@@ -1,0 +1,25 @@
+//go:build verif
+
+// Contracts for package modelgen, read by /verif/govc. Comment-only file.
+package modelgen
+
+// goName(t): the Go source spelling of a reflect.Type, by the language definition.
+//@ ghost func goName(reflect.Type) string
+//@ axiom goName(rtypeof("int")) == "int" && goName(rtypeof("float64")) == "float64" && goName(rtypeof("bool")) == "bool" && goName(rtypeof("string")) == "string"
+//@ axiom forall k: reflect.Type, v: reflect.Type :: goName(mapof(k, v)) == "map[" + goName(k) + "]" + goName(v)
+//@ axiom forall k: reflect.Type :: goName(ptrto(k)) == "*" + goName(k)
+//@ axiom forall k: reflect.Type :: goName(sliceof(k)) == "[]" + goName(k)
+
+// The generated field of a column has exactly the type the mapper expects
+// (ovsdb.NativeType) - C20, without enum types.
+//@ func AtomicType
+//@ pure
+//@ ensures IsAtom(atype) ==> result == goName(atomRT(atype))
+//@ func fieldType
+//@ requires ColWF(column)
+//@ may_panic
+//@ ensures !enumTypes ==> result == goName(nativeRT(column))
+//@ func FieldType
+//@ requires ColWF(column)
+//@ may_panic
+//@ ensures result == goName(nativeRT(column))
